@@ -230,9 +230,9 @@ def replay_one(args):
             t = None if tmo == -1 else float(tmo)
             t0 = w.clock.now
             written0, nread0, open0 = len(w.written), w.nread, w.peer_open
-            if not tail:
-                w.log(e='call', size=size, tmo=tmo)
-                w.active = True
+            w.quiet = tail          # the completion calls are judged by the contract clauses only
+            w.log(e='call', size=size, tmo=tmo)
+            w.active = True
             try:
                 data = w.child.read_nonblocking(size, t)
                 res = ('data', data)
